@@ -37,6 +37,8 @@ Inductive dact :=
 | DDeliverP (h : hdr) (now : Z) (b : bifres)   (* the same, but the call is parked inside setLocalHead right before
                                                  pending.Add (by a header whose Height() blocks there) until DRelT *)
 | DHead (a : option hdr)
+| DHeadP (a : option hdr)    (* Head() whose network head request (getter.Head with the subjective head it captured) is
+                                slow: parked inside the getter until DRelT, then answered with a *)
 | DAnswer (a : gans)
 | DRelL                      (* release the sync loop's gated Store.Append *)
 | DRelT (i : nat).           (* release learner call i's gated Store.Append *)
@@ -47,7 +49,8 @@ Record obs := Obs {
   o_local : N;               (* height Syncer.Head() reports (localHead) *)
   o_lid : N;                 (* its hash identity *)
   o_id : N; o_from : N; o_to : N; o_err : bool; o_height : N;   (* State() *)
-  o_req : option (N * N)     (* outstanding GetRangeByHeight call (from height, to) *)
+  o_req : option (N * N);    (* outstanding GetRangeByHeight call (from height, to) *)
+  o_hid : N                  (* hash identity of the header the real Store serves at its head height *)
 }.
 
 Definition optNN_eqb (a b : option (N * N)) : bool :=
@@ -67,10 +70,17 @@ Definition cur_req (c : cfg) : option (N * N) :=
   | _ => None
   end.
 
+Definition store_head_id (c : cfg) : N :=
+  match rs_get (rs_head (c_store c)) (c_store c) with Some h => h_id h | None => 0 end.
+
 Definition observe (ret : N) (c : cfg) : obs :=
   let st := c_state c in
   Obs ret (rs_head (c_store c)) (h_height (local_head c)) (h_id (local_head c)) (ss_id st) (ss_from st) (ss_to st)
-      (isSome (ss_err st)) (state_height c) (cur_req c).
+      (isSome (ss_err st)) (state_height c) (cur_req c) (store_head_id c).
+
+(** [obs_eqb] leaves [o_hid] aside: which of two different headers appended at one height the Store serves is
+    the Store's business (C04); C07's honest world has no such pairs and compares it exactly ([hid_eqb]) *)
+Definition hid_eqb (a b : obs) : bool := o_hid a =? o_hid b.
 
 Definition big_fuel : nat := N.to_nat 6000.
 
@@ -106,7 +116,10 @@ Definition tvf := link_tv trust.
 Definition at_sl4 (c : cfg) (i : nat) : bool :=
   match nth_error (c_thr c) i with Some (TRun _ _ _ SL4 _) => true | _ => false end.
 
-Definition held (hold : list nat) (c : cfg) (i : nat) : bool := existsb (Nat.eqb i) hold && at_sl4 c i.
+Definition at_hd1 (c : cfg) (i : nat) : bool :=
+  match nth_error (c_thr c) i with Some (THd1 _ _) => true | _ => false end.
+
+Definition held (hold : list nat) (c : cfg) (i : nat) : bool := existsb (Nat.eqb i) hold && (at_sl4 c i || at_hd1 c i).
 
 Fixpoint t_run_h (hold : list nat) (fuel : nat) (i : nat) (c : cfg) : cfg :=
   match fuel with
@@ -150,6 +163,11 @@ Definition act (hold : list nat) (c : cfg) (a : dact) : option (cfg * N * list n
   | DHead ans =>
     let c' := settle hold (step drift tvf c (EHead ans)) in
     Some (c', 0, hold)
+  | DHeadP ans =>
+    let i := length (c_thr c) in
+    let hold' := i :: hold in
+    let c' := settle hold' (step drift tvf c (EHead ans)) in
+    Some (c', 0, hold')
   | DAnswer ans =>
     match cur_req c with
     | Some _ => Some (settle hold (l_step (expand ans c) c), 0, hold)
@@ -210,7 +228,7 @@ Definition model07 (k : case07) : list obs * bool * list (N * N) :=
 
 Definition agree07 (k : case07) : bool :=
   let '(os, w, p) := model07 k in
-  list_eqb obs_eqb os (map snd (k_acts k)) && Bool.eqb w (k_wait k) && list_eqb pairNN_eqb p (k_probe k).
+  list_eqb obs_eqb os (map snd (k_acts k)) && list_eqb hid_eqb os (map snd (k_acts k)) && Bool.eqb w (k_wait k) && list_eqb pairNN_eqb p (k_probe k).
 
 (** ** the property, as a decidable check of the implementation's observations *)
 
@@ -249,13 +267,17 @@ Definition is_err_answer (a : dact) : bool :=
 
 (** walk over the observations: [newest] = newest verified head so far,
     [prev] = previous observation *)
-Fixpoint walk07 (newest : N) (prev : obs) (l : list (dact * obs)) : bool :=
+Fixpoint walk07 (u : list hdr) (newest : N) (prev : obs) (l : list (dact * obs)) : bool :=
   match l with
   | [] => true
   | (a, o) :: r =>
     let newest' := N.max newest (accepted_height a o) in
+    (* the Store's head is the true chain's header of that height *)
+    existsb (fun h => (h_height h =? o_head o) && (h_id h =? o_hid o)) u &&
     (* the subjective head is the newest verified head, whatever the sync loop is doing *)
     (o_local o =? newest')
+    (* Syncer.Head() is never below the head handed to the Store *)
+    && (o_height o <=? o_local o)
     (* nothing stored is ever lost; syncs are numbered upwards *)
     && (o_head prev <=? o_head o) && (o_id prev <=? o_id o)
     (* the store never runs ahead of what was verified *)
@@ -267,7 +289,7 @@ Fixpoint walk07 (newest : N) (prev : obs) (l : list (dact * obs)) : bool :=
         end)
     (* a getter error aborts the attempt: State reports it, store and subjective head are intact *)
     && (if is_err_answer a then o_err o && (o_head o =? o_head prev) && (o_local o =? o_local prev) else true)
-    && walk07 newest' o r
+    && walk07 u newest' o r
   end.
 
 Fixpoint newest07 (newest : N) (l : list (dact * obs)) : N :=
@@ -322,8 +344,8 @@ Definition ok07 (k : case07) : bool :=
   let u := k_init k ++ k_chain k in
   let h0 := h_height (last (k_init k) hdr_nil) in
   if honest07 u None (k_acts k) then
-    let o0 := Obs 0 h0 h0 0 0 0 0 false h0 None in
-    walk07 h0 o0 (k_acts k) && final07 k h0
+    let o0 := Obs 0 h0 h0 0 0 0 0 false h0 None 0 in
+    walk07 u h0 o0 (k_acts k) && final07 k h0
     (* what the Store serves at the end is exactly tail..head, true chain headers *)
     && (match last_opt (map snd (k_acts k)) with
         | Some o => consecutive_probe (k_tail k) (o_head o) (k_probe k)
